@@ -245,7 +245,31 @@ fn with_program(sp: &Value, lines: &[String]) -> Value {
 }
 
 /// Finds a crash point reproducing the violation for a changed program (smallest first).
+fn has_crash(sp: &Value) -> bool {
+    !sp["plan"]["crash_at"].is_null() || !sp["plan"]["compile_crash_at"].is_null()
+}
+
 fn refit_crash(sp: &Value, class: &str, key: &str, b: &mut Budget) -> Option<Value> {
+    if !sp["plan"]["compile_crash_at"].is_null() {
+        let mut free = sp.clone();
+        free["plan"]["compile_crash_at"] = Value::Null;
+        free["expect"] = json!({});
+        let n = match eval_findings(&free, false).1 {
+            Some(r) => r.compile_steps,
+            None => return None,
+        };
+        for k in 0..n.min(3000) {
+            if !b.ok() {
+                return None;
+            }
+            let mut c = sp.clone();
+            c["plan"]["compile_crash_at"] = json!(k);
+            if reproduces(&c, class, key).is_some() {
+                return Some(c);
+            }
+        }
+        return None;
+    }
     if sp["plan"]["crash_at"].is_null() {
         return if b.ok() && reproduces(sp, class, key).is_some() { Some(sp.clone()) } else { None };
     }
@@ -326,9 +350,9 @@ pub fn shrink_eval(sp: &Value, class: &str, key: &str) -> Value {
             cand.extend_from_slice(&lines[end..]);
             let cand = fix_epilogue(&cand);
             let csp = with_program(&cur, &cand);
-            let hit = if cur["plan"]["crash_at"].is_null() && !has_points(&cur) {
+            let hit = if !has_crash(&cur) && !has_points(&cur) {
                 if reproduces(&csp, class, key).is_some() { Some(csp) } else { None }
-            } else if has_points(&cur) && cur["plan"]["crash_at"].is_null() {
+            } else if has_points(&cur) && !has_crash(&cur) {
                 refit_points(&csp, class, key, &mut b)
             } else {
                 refit_crash(&csp, class, key, &mut b)
@@ -372,9 +396,9 @@ pub fn shrink_eval(sp: &Value, class: &str, key: &str) -> Value {
             let cand_lines: Vec<String> = cand.lines().map(|s| s.to_string()).collect();
             let cand_lines = fix_epilogue(&cand_lines);
             let csp = with_program(&cur, &cand_lines);
-            let hit = if cur["plan"]["crash_at"].is_null() && !has_points(&cur) {
+            let hit = if !has_crash(&cur) && !has_points(&cur) {
                 if reproduces(&csp, class, key).is_some() { Some(csp) } else { None }
-            } else if has_points(&cur) && cur["plan"]["crash_at"].is_null() {
+            } else if has_points(&cur) && !has_crash(&cur) {
                 refit_points(&csp, class, key, &mut b)
             } else {
                 refit_crash(&csp, class, key, &mut b)
